@@ -200,10 +200,59 @@ func basicConv(t types.Type, arg string, need map[string]bool) (expr, kind strin
 	return "", "", false
 }
 
+// poolType: an exported named type of the four packages that is neither one of
+// the object types nor an error type nor a plain basic type: values of such
+// types can only come out of the library (a Parser, an Option, an Editor) and
+// are carried from one call of a task to its later calls.
+func poolType(t types.Type, need map[string]bool) (key string, ok bool) {
+	inner := t
+	if p, isP := t.(*types.Pointer); isP {
+		inner = p.Elem()
+	}
+	n, isN := inner.(*types.Named)
+	if !isN || n.Obj().Pkg() == nil || !n.Obj().Exported() {
+		return "", false
+	}
+	if n.TypeArgs() != nil && n.TypeArgs().Len() > 0 {
+		return "", false
+	}
+	dir := ""
+	for d := range mainType {
+		if n.Obj().Pkg().Path() == modPath+"/"+d {
+			dir = d
+		}
+	}
+	if dir == "" || n.Obj().Name() == mainType[dir] {
+		return "", false
+	}
+	if _, isB := n.Underlying().(*types.Basic); isB {
+		return "", false
+	}
+	if _, isI := n.Underlying().(*types.Interface); isI {
+		return "", false
+	}
+	if types.Implements(n, errorIface) || types.Implements(types.NewPointer(n), errorIface) {
+		return "", false
+	}
+	if st, isS := n.Underlying().(*types.Struct); isS && inner == t {
+		// option structs with exported basic fields are made from JSON instead
+		for i := 0; i < st.NumFields(); i++ {
+			if st.Field(i).Exported() {
+				return "", false
+			}
+		}
+	}
+	e, ok := typeExpr(t, need)
+	return e, ok
+}
+
+var errorIface = types.Universe.Lookup("error").Type().Underlying().(*types.Interface)
+
 // genExtraAPI returns the source of verifsim/worker/extra_api.go.
 func genExtraAPI(pkgs map[string]*types.Package) (string, int) {
 	var body bytes.Buffer
 	imports := map[string]bool{}
+	poolKeys := map[string]bool{}
 	n := 0
 	var dirs []string
 	for d := range mainType {
@@ -221,21 +270,59 @@ func genExtraAPI(pkgs map[string]*types.Package) (string, int) {
 			if sig.TypeParams() != nil {
 				return
 			}
+			var args, kinds []string
+			need := map[string]bool{}
+			nObj, nPool := 0, 0
+			name := fn.Name()
+			if recv == "pool" {
+				// a method of a pool type: the receiver comes out of the pool
+				key, ok := poolType(sig.Recv().Type(), need)
+				if !ok {
+					return
+				}
+				kinds = append(kinds, "pool:"+key)
+				nPool++
+				inner := sig.Recv().Type()
+				if p, isP := inner.(*types.Pointer); isP {
+					inner = p.Elem()
+				}
+				name = inner.(*types.Named).Obj().Name() + "." + fn.Name()
+			}
+			variadicPool := ""
 			if sig.Variadic() {
-				// only ...string: a few strings, spread
+				// ...string (a few strings, spread) or ...<pool type>
 				last := sig.Params().At(sig.Params().Len() - 1).Type()
 				sl, isS := last.(*types.Slice)
 				if !isS {
 					return
 				}
 				if eb, isB := sl.Elem().(*types.Basic); !isB || eb.Kind() != types.String {
-					return
+					key, ok := poolType(sl.Elem(), need)
+					if !ok {
+						return
+					}
+					variadicPool = key
 				}
 			}
-			var args, kinds []string
-			need := map[string]bool{}
-			nObj := 0
 			for i := 0; i < sig.Params().Len(); i++ {
+				if variadicPool != "" && i == sig.Params().Len()-1 {
+					args = append(args, fmt.Sprintf("poolSlice[%s](pv[%d:])...", variadicPool, nPool))
+					kinds = append(kinds, "vpool:"+variadicPool)
+					continue
+				}
+				if _, isF := sig.Params().At(i).Type().Underlying().(*types.Signature); isF {
+					// a callback type the generated file can write a function for
+					// is not taken from the pool
+					if _, _, ok := basicConv(sig.Params().At(i).Type(), "x", map[string]bool{}); ok {
+						goto plain
+					}
+				}
+				if key, ok := poolType(sig.Params().At(i).Type(), need); ok {
+					args = append(args, fmt.Sprintf("pv[%d].(%s)", nPool, key))
+					kinds = append(kinds, "pool:"+key)
+					nPool++
+					continue
+				}
 				if ptr, ok := objParam(sig.Params().At(i).Type(), d); ok {
 					if ptr {
 						args = append(args, fmt.Sprintf("(*%s.%s)(objs[%d])", alias, mainType[d], nObj))
@@ -247,7 +334,8 @@ func genExtraAPI(pkgs map[string]*types.Package) (string, int) {
 					nObj++
 					continue
 				}
-				c, kind, ok := basicConv(sig.Params().At(i).Type(), fmt.Sprintf("a[%d]", i), need)
+			plain:
+				c, kind, ok := basicConv(sig.Params().At(i).Type(), fmt.Sprintf("a[%d]", len(kinds)), need)
 				if !ok {
 					return
 				}
@@ -264,6 +352,8 @@ func genExtraAPI(pkgs map[string]*types.Package) (string, int) {
 			call := alias + "." + fn.Name()
 			recvKind := 0
 			switch recv {
+			case "pool":
+				call = fmt.Sprintf("pv[0].(%s).%s", strings.TrimPrefix(kinds[0], "pool:"), fn.Name())
 			case "ptr":
 				call = fmt.Sprintf("(*%s.%s)(obj).%s", alias, mainType[d], fn.Name())
 				recvKind = 1
@@ -275,8 +365,15 @@ func genExtraAPI(pkgs map[string]*types.Package) (string, int) {
 			for k := range need {
 				imports[k] = true
 			}
+			for _, k := range kinds {
+				if strings.HasPrefix(k, "pool:") {
+					poolKeys[k[5:]] = true
+				} else if strings.HasPrefix(k, "vpool:") {
+					poolKeys[k[6:]] = true
+				}
+			}
 			n++
-			fmt.Fprintf(&body, "\textraAPI = append(extraAPI, extraFn{Ver: %s, Name: %q, Recv: %d, Params: %#v, Call: func(obj unsafe.Pointer, a []string, objs []unsafe.Pointer) ([]any, [][]byte) {\n\t\tvar in [][]byte\n", d, fn.Name(), recvKind, kinds)
+			fmt.Fprintf(&body, "\textraAPI = append(extraAPI, extraFn{Ver: %s, Name: %q, Recv: %d, Params: %#v, Call: func(obj unsafe.Pointer, a []string, objs []unsafe.Pointer, pv []any) ([]any, [][]byte) {\n\t\tvar in [][]byte\n", d, name, recvKind, kinds)
 			if len(res) > 0 {
 				fmt.Fprintf(&body, "\t\t%s := %s(%s)\n\t\treturn []any{%s}, in\n", strings.Join(res, ", "), call, strings.Join(args, ", "), strings.Join(res, ", "))
 			} else {
@@ -297,6 +394,15 @@ func genExtraAPI(pkgs map[string]*types.Package) (string, int) {
 				}
 			case *types.TypeName:
 				if name != mainType[d] {
+					if _, ok := poolType(o.Type(), map[string]bool{}); ok {
+						if named, isN := o.Type().(*types.Named); isN {
+							for i := 0; i < named.NumMethods(); i++ {
+								if m := named.Method(i); m.Exported() {
+									emit(m, "pool")
+								}
+							}
+						}
+					}
 					continue
 				}
 				named, ok := o.Type().(*types.Named)
@@ -327,6 +433,14 @@ func genExtraAPI(pkgs map[string]*types.Package) (string, int) {
 			}
 		}
 		out.WriteString(")\n\nfunc init() {\n")
+		var pk []string
+		for k := range poolKeys {
+			pk = append(pk, k)
+		}
+		sort.Strings(pk)
+		for _, k := range pk {
+			fmt.Fprintf(&out, "\textraPoolTypes = append(extraPoolTypes, %q)\n", k)
+		}
 		out.Write(body.Bytes())
 		out.WriteString("}\n")
 	}
